@@ -136,6 +136,23 @@ def gen_cases(tier, seed):
             if kind in ('ppm', 'eps', 'pdf', 'xpm', 'pam') and (isinstance(c, tuple) and len(c) == 4 or (isinstance(c, str) and len(c) in (5, 9))):
                 continue  # alpha colours are documented for PNG and SVG only
             cases.append({'kind': 'ser', 'out': kind, 'kw': {'dark': c}, 'expect': 'accept'})
+    # refusals the serialisers document besides malformed colours (every one of these lines of the library is reached by
+    # no other workload - tools/linecov.py)
+    for kind in ('eps', 'pdf'):
+        for c in ((1.5, 0.0, 0.0), (0.0, -0.1, 0.0), (0.0, 0.0, 1.0000001), (2.0, 2.0, 2.0)):
+            for arg in ('dark', 'light'):
+                cases.append({'kind': 'ser', 'out': kind, 'kw': {arg: c}, 'expect': 'refuse'})
+        for c in ((1.0, 0.0, 0.0), (0.0, 0.5, 1.0), (0.25, 0.25, 0.25)):
+            cases.append({'kind': 'ser', 'out': kind, 'kw': {'dark': c}, 'expect': 'accept'})
+    for unit in ('mm', 'cm', 'px'):
+        cases.append({'kind': 'ser', 'out': 'svg', 'kw': {'unit': unit, 'omitsize': True}, 'expect': 'refuse'})
+        cases.append({'kind': 'ser', 'out': 'svg', 'kw': {'unit': unit}, 'expect': 'accept'})
+    for dpi in (-1, -300, -0.5, 'x', None):
+        cases.append({'kind': 'ser', 'out': 'png', 'kw': {'dpi': dpi}, 'expect': 'any'})
+    for dpi in (0, 72, 300, 600.0):
+        cases.append({'kind': 'ser', 'out': 'png', 'kw': {'dpi': dpi}, 'expect': 'accept'})
+    for kw in ({'light': None}, {'dark': None}, {'finder_dark': None}, {'quiet_zone': None}, {'data_light': None, 'dark': 'red'}):
+        cases.append({'kind': 'ser', 'out': 'ppm', 'kw': kw, 'expect': 'refuse'})     # PPM has no transparency
     # a valid colour first, then a malformed one that compares equal to it in Python (255 == 255.0, 1 == True): a result cache
     # keyed by the argument must not turn the refusal into an acceptance
     for kind in ('png', 'svg'):
@@ -382,6 +399,13 @@ def run_ser(case, rec, q):
 
 
 def judge_ser(case, ex, rec, what):
+    if case['expect'] == 'any':
+        # not one of the refusals the property lists: accepted or refused, but a refusal is a ValueError
+        if ex is not None and not isinstance(ex, ValueError):
+            rec.deviation('C14', 'serializer-exception-class', dict(what, type=type(ex).__name__, message=str(ex)[:120]))
+        else:
+            rec.count('serializer_other_option_values')
+        return
     if case['expect'] == 'refuse':
         if ex is None:
             rec.deviation('C14', 'serializer-accepted-invalid', what)
